@@ -24,7 +24,7 @@ SortedKV(m) == LET ks == SetToSortSeq(DOMAIN m, <) IN [i \in 1..Len(ks) |-> <<ks
 MinOfS(S) == CHOOSE k \in S : \A j \in S : k <= j
 MaxOfS(S) == CHOOSE k \in S : \A j \in S : j <= k
 NewMap == CASE Ev.op = "put" -> [x \in Dom \cup {Ev.a} |-> IF x = Ev.a THEN Ev.b ELSE map[x]]
-            [] Ev.op = "rm" -> [x \in Dom \ {Ev.a} |-> map[x]]
+            [] Ev.op \in {"rm", "rmnext"} -> [x \in Dom \ {Ev.a} |-> map[x]]
             [] Ev.op = "clear" -> EmptyMap
             [] OTHER -> map
 Pairs(s) == {s[i][1] : i \in 1..Len(s)}
@@ -37,6 +37,9 @@ ResultOk ==
     [] Ev.op = "rm" -> Ev.ok = (Ev.a \in Dom) /\ (~Ev.ok => Ev.err = 1)
     [] Ev.op = "min" -> IF Dom = {} THEN ~Ev.ok /\ Ev.err = 1 ELSE Ev.ok /\ Ev.rk = MinOfS(Dom)
     [] Ev.op = "max" -> IF Dom = {} THEN ~Ev.ok /\ Ev.err = 1 ELSE Ev.ok /\ Ev.rk = MaxOfS(Dom)
+    [] Ev.op = "rmnext" ->     \* documented removal in a getnext loop: removes the key just returned, rewinds to its floor
+         /\ out # <<>> /\ mode \in {"walk", "rmwalk"} /\ Ev.a = out[Len(out)][1] /\ Ev.ok
+         /\ (IF Dom \ {Ev.a} = {} THEN Ev.rk = 0 ELSE Ev.rk = FloorOf(Dom \ {Ev.a}, Ev.a) /\ Ev.rv = map[Ev.rk])
     [] Ev.op = "size" -> Ev.n = Cardinality(Dom)
     [] Ev.op = "debug" -> Ev.ok
     [] OTHER -> TRUE
@@ -44,7 +47,9 @@ WalkOk ==
   CASE Ev.op = "walk" -> Ev.out = SortedKV(map)
     [] Ev.op = "next" ->
          IF Ev.ok THEN Ev.rk \in Dom /\ Ev.rv = map[Ev.rk]
-         ELSE (mode \in {"idle", "walk"} /\ Ev.nfail = 0) => out = SortedKV(map)
+         ELSE /\ (mode \in {"idle", "walk"} /\ Ev.nfail = 0) => out = SortedKV(map)
+              \* after removals inside the loop a full sweep is not promised: ascending, nothing twice
+              /\ (mode \in {"rmwalk", "rmwalk-r"} /\ Ev.nfail = 0) => \A i, j \in 1..Len(out) : i < j => out[i][1] < out[j][1]
     [] OTHER -> TRUE
 NearOk ==
   CASE Ev.op = "nearest" -> IF Dom = {} THEN ~Ev.ok /\ Ev.err = 1
@@ -82,6 +87,9 @@ Pred == CASE Ev.op = "put" -> <<PutTree(tree, Ev.a, Ev.b), ttid, cur>>
           [] Ev.op = "clear" -> <<Nil, ttid, cur>>
           [] Ev.op = "next" -> LET g == GetNextOp(tree, ttid, cur) IN <<g[1], g[2], IF g[4] > 0 THEN g[3] ELSE None>>
           [] Ev.op = "abandon" -> <<tree, ttid, None>>
+          [] Ev.op = "rmnext" -> LET t1 == RemTree(tree, Ev.a) IN
+                                 IF t1 = Nil THEN <<Nil, ttid, None>>
+                                 ELSE LET r == NearestOp(t1, Ev.a) IN <<r[1], ttid, [tid |-> ttid, nx |-> r[2]]>>
           [] Ev.op = "nearest" -> IF tree = Nil THEN <<tree, ttid, cur>>
                                   ELSE LET r == NearestOp(tree, Ev.a) IN
                                        <<r[1], ttid, IF Ev.b = 1 /\ r[2] > 0 THEN [tid |-> ttid, nx |-> r[2]] ELSE cur>>
@@ -96,12 +104,13 @@ TInit == /\ tree = Nil /\ ttid = 1 /\ cur = None /\ out = <<>> /\ mode = "idle" 
 Reject(why, exp) == PrintT("REJECT " \o ToJson([l |-> l, why |-> why, ev |-> Ev, exp |-> exp]))
 Ghost ==   \* traversal bookkeeping (hypotheses of C03/C04), following the recorded results
   CASE Ev.op = "next" ->
-         IF Ev.ok THEN /\ out' = Append(out, <<Ev.rk, Ev.rv>>) /\ mode' = (IF mode = "idle" THEN "walk" ELSE mode)
+         IF Ev.ok THEN /\ out' = Append(out, <<Ev.rk, Ev.rv>>) /\ mode' = (IF mode = "idle" THEN "walk" ELSE IF mode = "rmwalk-r" THEN "rmwalk" ELSE mode)
                        /\ unfinished' = TRUE
          ELSE IF Ev.nfail > 0 THEN UNCHANGED <<out, mode, unfinished>>      \* failed copy: the call is repeated
          ELSE /\ out' = <<>> /\ mode' = "idle"
               /\ unfinished' = (IF Dom = {} THEN unfinished ELSE FALSE)
     [] Ev.op = "abandon" -> out' = <<>> /\ mode' = "idle" /\ UNCHANGED unfinished
+    [] Ev.op = "rmnext" -> mode' = "rmwalk-r" /\ UNCHANGED <<out, unfinished>>
     [] Ev.op = "nearest" /\ Ev.b = 1 /\ Ev.ok ->
          /\ out' = <<>> /\ mode' = (IF unfinished THEN "walk?" ELSE "nwalk") /\ UNCHANGED unfinished
     [] Ev.op = "walk" -> UNCHANGED <<out, mode>> /\ unfinished' = (IF Dom = {} \/ Ev.nfail > 0 THEN unfinished ELSE FALSE)
@@ -117,7 +126,7 @@ TNext ==
                  IF Ev.live = 0 \/ "leak" \notin Owned THEN UNCHANGED <<tree, ttid, cur, out, mode, unfinished, map, skipping, nconf, ncmp>>
                  ELSE PrintT("REJECT " \o ToJson([l |-> l, why |-> {"leak"}, ev |-> Ev, exp |-> "constructor leaked"])) /\ skipping' = TRUE /\ UNCHANGED <<tree, ttid, cur, out, mode, unfinished, map, nconf, ncmp>>
             ELSE IF Ev.op \in {"crash", "timeout"} THEN
-        /\ Reject({Ev.op} \cup (IF Ev.where = "nearest" THEN {"nearest"} ELSE IF Ev.where \in {"next", "walk"} THEN {"walk"} ELSE {"result"}),
+        /\ Reject({Ev.op} \cup (IF Ev.where = "nearest" THEN {"nearest"} ELSE IF Ev.where \in {"next", "walk"} THEN {"walk"} ELSE IF Ev.where = "rmnext" THEN {"rmloop"} ELSE {"result"}),
                   "no action admits this event")
         /\ skipping' = TRUE /\ UNCHANGED <<tree, ttid, cur, out, mode, unfinished, map, nconf, ncmp>>
      ELSE IF Ev.op = "free" THEN
